@@ -25,6 +25,10 @@ NUMERIC = ["offset", "column", "length", "bpm", "metronome"]
 GAME_COLS = {"osu": ["volume", "hitsound_set", "sample_set", "custom_set"], "qua": [], "bms": [], "o2j": [], "sm": []}
 
 
+def pinned(tier):
+    return [dict(cls="repo_test_suite", select=['tests/unit_tests/base'])] if tier == "thorough" else []
+
+
 def gen(rng, tier, k):
     from rv.gen import charts
 
@@ -119,6 +123,9 @@ def do_op(stack, op):
 
 
 def run(ctx, case):
+    if case.get("cls") == "repo_test_suite":
+        from rv.suite import run_repo_tests
+        return run_repo_tests(ctx, case.get("select"))
     from reamber.base.lists.BpmList import BpmList
     from reamber.base.lists.notes import HitList, HoldList, NoteList
     from rv.gen import charts
